@@ -22,12 +22,15 @@ RULE = (
     "System.generate; System.generate must return a fully generated member. Non-trivial: >= 2 components and >= 5 molecules yielded; distinct by system text."
 )
 ASSUMPTIONS = ["residue ids of a system must stay <= 25 (library names residues A..Z); larger generated systems are skipped and counted"]
-FLOORS = {"quick": {"systems_iterated": 60, "molecules_yielded": 1000, "nongenerable_probed": 8, "distinct_nontrivial": 15}, "thorough": {"systems_iterated": 1500, "molecules_yielded": 30000}}
+FLOORS = {"quick": {"systems_iterated": 60, "molecules_yielded": 1000, "nongenerable_probed": 8, "exact_boundary_hit": 30, "distinct_nontrivial": 15}, "thorough": {"systems_iterated": 1500, "molecules_yielded": 30000}}
 
 
 def plan(tier, seed):
     n = 96 if tier == "quick" else 2000
-    return [{"seed": seed * 1000507 + i, "kind": "gen" if i % 6 else "nongen"} for i in range(n)]
+    cases = [{"seed": seed * 1000507 + i, "kind": "gen" if i % 6 else "nongen"} for i in range(n)]
+    for i in range(16 if tier == "quick" else 200):
+        cases.append({"seed": seed * 1000517 + i, "kind": "exact"})
+    return cases
 
 
 def setup_worker():
@@ -92,6 +95,8 @@ def run_case(case):
     cnt = collections.Counter()
     viol, nt = [], set()
     sample = None
+    if case["kind"] == "exact":
+        return run_exact(case, rng)
     s = make_system(rng)
     if case["kind"] == "nongen":
         # under-determined: drop specifiers so that the system is not generable
@@ -225,3 +230,61 @@ def run_case(case):
     cnt["evaluations"] = len(seq) + 1
     sample = {"system": text, "system_mass": sysM, "molecules_yielded": len(seq), "accumulated_mass": acc, "members_per_component": dict(member_counts)}
     return {"viol": viol[:12], "nt": sorted(nt), "cnt": dict(cnt), "sample": sample}
+
+
+def run_exact(case, rng):
+    """fixed-mass components and a system mass that is EXACTLY the left-to-right float sum of k molecule masses:
+    iteration must stop with the molecule that brings the accumulated mass to the system mass (>=), not one later"""
+    import gbigsmiles
+    from rdkit import Chem
+    from rdkit.Chem import Descriptors
+
+    cnt = collections.Counter()
+    viol = []
+    sample = None
+    for rep in range(6):
+        n = rng.choice([1, 1, 2, 3])
+        smis = rng.sample(["CC", "CCO", "COC", "CCC", "C1CCOC1", "CC(=O)C", "CCCCCC", "CS"], n)
+        masses = [Descriptors.HeavyAtomMolWt(Chem.MolFromSmiles(x)) for x in smis]
+        k = rng.randint(1, 12)
+        if n == 1:
+            total = 0.0
+            for _ in range(k):
+                total += masses[0]
+            text = smis[0]
+            S = gbigsmiles.System(text, total) if rng.random() < 0.5 else gbigsmiles.System(f"{text}.|{total!r}|")
+            expect = k
+        else:
+            # equal-mass isomers or a total that every sequence of k molecules reaches exactly is rare; use equal masses
+            smis = rng.sample(["CCO", "COC"], 2) if n >= 2 else smis
+            masses = [Descriptors.HeavyAtomMolWt(Chem.MolFromSmiles(x)) for x in smis]
+            total = 0.0
+            for _ in range(k):
+                total += masses[0]
+            f = rng.choice([50.0, 25.0, 80.0])
+            text = f"{smis[0]}.|{f}%|{smis[1]}.|{(100 - f) / 100 * total!r}|"
+            S = gbigsmiles.System(text)
+            expect = None
+        if not S.generable:
+            cnt["exact_not_generable"] += 1
+            continue
+        sysM = S.system_mass
+        seq = list(run_generator(S, W.spy(case["seed"] + rep)))
+        acc, stop_at = 0.0, None
+        for i, g in enumerate(seq):
+            acc += g.weight
+            if acc >= sysM and stop_at is None:
+                stop_at = i
+        cnt["exact_systems"] += 1
+        cnt["systems_iterated"] += 1
+        cnt["molecules_yielded"] += len(seq)
+        hit = any(abs(sum(x.weight for x in seq[: j + 1]) - sysM) == 0.0 for j in range(len(seq)))
+        cnt["exact_boundary_hit"] += int(hit)
+        if stop_at is None:
+            viol.append({"cls": "c13.stops-early", "msg": f"System({text!r}) ended after {len(seq)} molecules with accumulated mass {acc!r} < system mass {sysM!r}", "text": text})
+        elif stop_at != len(seq) - 1:
+            viol.append({"cls": "c13.stops-late", "msg": f"System({text!r}): the accumulated mass reached the system mass {sysM!r} exactly at molecule {stop_at + 1}, but {len(seq)} molecules were yielded", "text": text})
+        if sample is None:
+            sample = {"exact_system": text, "system_mass": sysM, "molecules": len(seq), "boundary_hit_exactly": hit}
+    cnt["evaluations"] = cnt["molecules_yielded"]
+    return {"viol": viol, "cnt": dict(cnt), "nt": [], "sample": sample}
